@@ -7,6 +7,7 @@ import KtVerif.Model.MinOut
 import KtVerif.Spec.Cli
 import KtVerif.Model.Py
 import KtVerif.Spec.EndToEnd
+import KtVerif.Model.Display
 /-!
 # Driver glue (trusted, thin): parsing of request lines, printing of answers.
 
@@ -282,7 +283,13 @@ def answerWords (c : Cache) : List String → Cache × String
     let S := sz.toNat!; let s := unhex hx
     match cgrF64 S s with
     | none => (c, joinWith "|" ["err", b01 (cgrExact S s).isNone])
-    | some pts => (c, joinWith "|" ["ok", fmtPts pts, match cgrJudge S s pts with | none => "1" | some i => s!"0@{i}"])
+    | some pts => (c, joinWith "|" ["ok", fmtPts pts, (match cgrJudge S s pts with | none => "1" | some i => s!"0@{i}"),
+        hex (cgrRowText pts)])
+  | ["display", bs] =>
+    -- `format!("{}", x)` for doubles given as IEEE bit patterns; second field: does the text read back as the same double
+    let ns := (bs.splitOn ",").map fun b => f64Unbits b.toNat!
+    (c, joinWith "|" ["ok", fmtHexList (ns.map f64Display),
+      joinWith "," (ns.map fun n => b01 (parseF64 (f64Display n) == some n))])
   | ["cgrjudge", sz, hx, pts] =>
     -- the implementation's points as IEEE bit patterns `xbits:ybits,…`
     let S := sz.toNat!; let s := unhex hx
@@ -297,7 +304,8 @@ def answerWords (c : Cache) : List String → Cache × String
     match oligoCgrRow pm k S norm s with
     | none => (c, "err")
     | some row =>
-      (c, joinWith "|" ["ok", joinWith "," (row.map fun t => s!"{f64Bits t.1}:{f64Bits t.2.1}:{f64Bits t.2.2}")])
+      (c, joinWith "|" ["ok", joinWith "," (row.map fun t => s!"{f64Bits t.1}:{f64Bits t.2.1}:{f64Bits t.2.2}"),
+        hex (oligoCgrRowText row)])
   | ["oligofile", k, norm, header, dl, recs] =>
     -- the whole expected vectors file: the specification (`oligoFileSpecG`, right-hand side of the end-to-end
     -- theorems) and the code-shaped model (header of the model ++ model rows)
